@@ -383,6 +383,15 @@ def mgda(index, ctx, A, by_class):
     with_loop = [f for f in cls.methods.values() if any(isinstance(n, ast.For) for n in ast.walk(f.node))]
     fi = with_loop[0] if len(with_loop) == 1 else cls.lookup("forward")[1]
     ctx.analysed(fi.qualname)
+    # an endless generator of iterates consumed by `zip(range(max_iters), it)` / `islice(it, max_iters)` is read as the one loop
+    # that generator and consumer execute together
+    from ..normalize import fuse_generators
+    import copy as _copy
+
+    fused = fuse_generators(fi.node, fi.module, index)
+    if ast.dump(fused) != ast.dump(fi.node):
+        fi = _copy.copy(fi)
+        fi.node = fused
     loops_ = [n for n in ast.walk(fi.node) if isinstance(n, ast.For)]
     if len(loops_) != 1:
         ctx.undecided("R5", "MGDA: Frank-Wolfe loop", f"expected one loop, found {len(loops_)}", fi.loc())
